@@ -1,9 +1,45 @@
-(** Property C02 — theorems only; proofs live in Proofs/. *)
-From Coq Require Import String List.
-From Zog Require Import Model.Val Model.Engine Spec.Sem Proofs.Refine.
+(** Property C02 — every violation is reported exactly once, where it occurred, and nothing else. *)
+From Coq Require Import String List Bool.
+From Zog Require Import Model.Val Model.Engine Spec.Sem Proofs.Refine Proofs.ExactP Proofs.AbsentP.
+Import ListNotations.
 
-(** The executable engine (flags, shared child context, mutable path stack, one issue log) computes
-    exactly the context-free semantics, for every schema, mode, input and destination. *)
+(** The engine — with its catch flags on a shared child context, its mutable path stack and its
+    single issue log — reports exactly the entries of the context-free semantics [sem], in which a
+    node's contribution is a function of that node alone: nothing is swallowed or duplicated by a
+    sibling, an earlier element or the path bookkeeping.  Every depth, every visit order. *)
 Theorem C02_engine_computes_semantics : forall m s dat d, run m s dat d = sem_run m s dat d.
 Proof. exact run_is_sem_run. Qed.
 Print Assumptions C02_engine_computes_semantics.
+Theorem C02_node_refines : forall s, refines s.
+Proof. exact exec_refines_sem. Qed.
+Print Assumptions C02_node_refines.
+
+(** all failing tests of a node are reported, one issue each with the test's code, in order *)
+Theorem C02_all_failing_tests_reported : forall dtype ts v,
+  codes (sem_tests_all dtype ts v) = map t_code (filter (fun t => negb (t_ok t v)) ts).
+Proof. exact all_failing_tests_reported. Qed.
+Print Assumptions C02_all_failing_tests_reported.
+Theorem C02_test_issues_at_own_path : forall dtype ts v r, In r (sem_tests_all dtype ts v) -> match r with RI s _ | RC s _ => s = [] end.
+Proof. exact test_issues_at_own_path. Qed.
+Print Assumptions C02_test_issues_at_own_path.
+
+(** a missing required value, or an un-coercible value, is exactly one issue that suppresses the
+    node's own tests (and, for a struct, its children) *)
+Theorem C02_missing_required_is_one_issue : forall m p dat d e0 rt, p_pts p = [] ->
+  match m with Parse => parse_zero dat | Validate => go_zero d end = true -> p_def p = None -> p_req p = Some rt -> p_catch p = None ->
+  sem_prim m p dat d e0 = ([RI [] (fun q => mk_test_issue q (dtype_of (p_kind p)) rt)], d).
+Proof. intros m p dat d e0 rt H. exact (absent_required m p dat d e0 H rt). Qed.
+Print Assumptions C02_missing_required_is_one_issue.
+Theorem C02_coerce_failure_is_one_issue : forall p dat d e0, p_pts p = [] -> p_catch p = None -> parse_zero dat = false -> p_coerce p dat = None ->
+  sem_prim Parse p dat d e0 = ([RI [] (fun q => mk_coerce_issue q (dtype_of (p_kind p)))], d).
+Proof. exact coerce_failure_is_one_issue. Qed.
+Print Assumptions C02_coerce_failure_is_one_issue.
+Theorem C02_struct_not_a_record : forall fs tests v d e0, provider_of_val v = None ->
+  sem Parse (SStruct fs tests []) (DVal v) d e0 = ([RI [] (fun q => mk_coerce_issue q "struct")], d).
+Proof. exact struct_not_a_record. Qed.
+Print Assumptions C02_struct_not_a_record.
+
+(** the result is nil if and only if there is no violation *)
+Theorem C02_nil_iff_no_violation : forall m s dat d, o_issues (run m s dat d) = [] <-> rerrored (fst (sem m s dat d false)) = false.
+Proof. exact nil_iff_no_violation. Qed.
+Print Assumptions C02_nil_iff_no_violation.
